@@ -368,20 +368,31 @@ def __lower_bound_sk_norm_randomized(
             a_mat = v0_mat.conj().T @ swap_entagled_kron_mat @ v0_mat
             b_mat = v0_mat.conj().T @ swap_entagled_kron_id @ v0_mat
 
-            largest_eigval, largest_eigvec = scipy.linalg.eigh(
-                a_mat, b=b_mat, subset_by_index=[a_mat.shape[0] - 1, a_mat.shape[0] - 1]
-            )
+            try:
+                _, largest_eigvec = scipy.linalg.eigh(
+                    a_mat, b=b_mat, subset_by_index=[a_mat.shape[0] - 1, a_mat.shape[0] - 1]
+                )
+            except np.linalg.LinAlgError:
+                # `b_mat` is numerically singular (the iterate has numerically lower Schmidt rank): keep what we have.
+                return sk_lower_bound
 
-            if (new_sk_lower_bound := np.real(largest_eigval[0])) >= sk_lower_bound + tol:
+            # The generalized eigenvalue is unreliable when `b_mat` is close to singular, so the bound is always the
+            # value attained by the new vector itself.
+            new_schmidt = opt_schmidt.copy()
+            new_schmidt[: v0_mat.shape[1], (p + 1) % 2] = largest_eigvec.ravel()
+            new_vec = left_swap_entagled_kron_id.conj().T @ np.kron(
+                new_schmidt[: k * dim_a, 0], new_schmidt[: k * dim_b, 1]
+            )
+            if not np.all(np.isfinite(new_vec)) or np.linalg.norm(new_vec, ord=2) == 0:
+                continue
+            new_vec /= np.linalg.norm(new_vec, ord=2)
+
+            if (new_sk_lower_bound := np.real(new_vec.conj().T @ mat @ new_vec)) >= sk_lower_bound + tol:
                 it_lower_bound_improved = True
                 sk_lower_bound = new_sk_lower_bound
 
-                opt_schmidt[: v0_mat.shape[1], (p + 1) % 2] = largest_eigvec.ravel()
-                opt_vec = left_swap_entagled_kron_id.conj().T @ np.kron(
-                    opt_schmidt[: k * dim_a, 0], opt_schmidt[: k * dim_b, 1]
-                )
-
-                opt_schmidt[:, (p + 1) % 2] /= np.linalg.norm(opt_schmidt[:, (p + 1) % 2], ord=2)
-                opt_vec /= np.linalg.norm(opt_vec, ord=2)
+                new_schmidt[:, (p + 1) % 2] /= np.linalg.norm(new_schmidt[:, (p + 1) % 2], ord=2)
+                opt_schmidt = new_schmidt
+                opt_vec = new_vec
 
     return sk_lower_bound
